@@ -29,7 +29,7 @@ Qed.
 
 (* (2 or 3) - 1 : in the subset, and the walker gives Python's 1 *)
 Definition e_or := EBinOp "Sub" (EBoolOp "Or" [EConst 12; EConst 13]) (EConst 11).
-Example ex_in_subset : in_subset ex_T ex_O e_or = true.
+Example ex_in_subset : in_subset ex_T e_or = true.
 Proof. vm_compute. reflexivity. Qed.
 Example ex_walker_or : fst (run_eval ex_T ex_O e_or) = Ok 11 /\ py_eval ex_O e_or = Ok 11.
 Proof. vm_compute. split; reflexivity. Qed.
@@ -37,7 +37,7 @@ Proof. vm_compute. split; reflexivity. Qed.
 (* a chain 1 < 2 < 0 *)
 Example ex_chain :
   let e := ECompare (EConst 11) ["Lt"; "Lt"] [EConst 12; EConst 10] in
-  in_subset ex_T ex_O e = true /\ fst (run_eval ex_T ex_O e) = Ok 0 /\ py_eval ex_O e = Ok 0.
+  in_subset ex_T e = true /\ fst (run_eval ex_T ex_O e) = Ok 0 /\ py_eval ex_O e = Ok 0.
 Proof. vm_compute. repeat split; reflexivity. Qed.
 
 (* pre-repair BoolOp (all()/any() of the operand list) disagrees with Python
